@@ -511,6 +511,11 @@ func (g *Engine) opNew(s hx.M) {
 	}
 	g.trn = hx.Int(s, "tr")
 	g.ntrace++
+	// every trace starts a whole gap after the instant the previous one reached (a trace may hold entries for minutes):
+	// the inbound node is shared by all traces and must have forgotten the previous trace
+	if now := g.Clk.NowMs(); now > g.origin+g.ntrace*traceGap-traceGap {
+		g.ntrace = (now-g.origin)/traceGap + 2
+	}
 	g.base0 = g.origin + g.ntrace*traceGap
 	g.Clk.SetMs(g.base0 + hx.Int(s, "t"))
 	g.ents, g.order, g.neid = map[int64]*ent{}, nil, 0
